@@ -1,5 +1,6 @@
 """C11 — Handover: the successor listens before the predecessor stops."""
 import re
+import subprocess
 
 import kv
 from kv import Case, xn, xl, xlist, xb
@@ -401,14 +402,26 @@ class Mapper:
 _DRV = None
 
 
+def _big_stack():
+    # the extracted list functions are not tail-recursive: a log of several 100 000 entries needs more than the default 8 MB stack
+    import resource
+    try:
+        soft, hard = resource.getrlimit(resource.RLIMIT_STACK)
+        resource.setrlimit(resource.RLIMIT_STACK, (hard, hard))
+    except (ValueError, OSError):
+        pass
+
+
 def model_check(nl, entries):
     global _DRV
     if _DRV is None:
         _DRV = kv.build_model_driver()
     x = xl(xn(2), xn(nl), xlist([xl(lb, xn(o)) for lb, o in entries]))
-    out = kv._run_sharded(_DRV, ["t handover.check " + kv.xtext(x)], shards=1)
     try:
-        r = py(kv.xparse(out["t"]))
+        p = subprocess.run([_DRV], input="t handover.check " + kv.xtext(x) + "\n", capture_output=True, text=True, timeout=900,
+                           preexec_fn=_big_stack, env=kv.ENV)
+        out = p.stdout.strip()
+        r = py(kv.xparse(out[out.index(" ") + 1:]))
         return r[0], r[1], r[2]
     except Exception:
         return None
